@@ -30,7 +30,7 @@ CLAIMED = {
             'offset convex polygon with a triangular no-go, U-shape with two no-go zones): over the whole range of spacing bounds every kept '
             'borehole is inside/on-edge of a property polygon and strictly outside every no-go polygon (exact rational oracle), clearly '
             'acceptable grid boreholes are never dropped, empty fields are removed, lists are count-ordered; plus remove_cutout on a fully '
-            'symbolic point for all four remove_inside/keep_contour combinations on four polygon sets.',
+            'symbolic point for all four remove_inside/keep_contour combinations on four polygon sets; the same pipeline after another design of the same extent (same grid points, other polygons) was built in the same process.',
             'polygons concrete; sqrt abstraction + detour lemma as C16; points within 2 x tolerance of a boundary exempt from the never-dropped clause',
             '3/C04', None),
     'C05': ('Same runs: final height is a brentq root unless the sign does not change; count*H <= count_j*Hmax for every evaluated feasible j; '
@@ -54,7 +54,7 @@ CLAIMED = {
             'as C06; single-year load files only', '3/C08', None),
     'C09': ('Every returned temperature equals the documented superposition formula for symbolic loads/times/parameters (n up to 8 quick, 24 '
             'thorough; the loop body is identical for every step), through GHE.simulate including unit factors; corollaries; hourly branch '
-            'axis/load consistency for every horizon 1..360 and three call histories.',
+            'axis/load consistency for every horizon 1..360 and three call histories; the load vector the hourly branch hands to the sum is minus the extraction load of each hour on the axis 1, 2, ... h (symbolic loads at four hours of the year, horizons 1..30 (120) months).',
             'g and ln uninterpreted; floats as reals; numpy replaced by exact list facade', '3/C09', None),
     'C10': ('Structural clauses for all geometries (symbolic radii, conductivities, capacities; production 535-cell mesh and a second mesh): '
             'gap-free tiling from the fluid core to 10 m, fluid thermal mass, layer resistances summing to R_b*. Dynamic clauses by one '
@@ -68,16 +68,16 @@ CLAIMED = {
     'C11': ('Decidable part: joined axis strictly increasing, long-time points reproduced with radius-corrected values, short-time points kept '
             'exactly below the first long-time point (1..8 symbolic short-time points against the Eskilson axis and a symbolic axis); '
             'interpolation at a stored height returns the stored curve and radius for 1..5 symbolic stored heights (native replay with the '
-            'real scipy); radius correction identity/additive/monotone; grab_g_function glue.',
-            'NOT claimed: FLS/UHTR 1e-4 anchor, 20 % MIFT clause (pygfunction numerics). interp1d replaced by its node contract; ln '
+            'real scipy); radius correction identity/additive/monotone; grab_g_function glue; the stored long-time family is computed by pygfunction calls that receive the boundary condition, solver and segment options asked for, the field at each height/depth/radius and that height's times (pygfunction as a recorder).',
+            'NOT claimed: the numbers of the FLS/UHTR 1e-4 anchor and the 20 % MIFT clause (pygfunction numerics). interp1d replaced by its node contract; ln '
             'uninterpreted with product rule + monotonicity instances; stored heights >= 0.01 m apart; no exact tie of a short-time point '
             'with the first long-time point.', '3/C11', None),
     'C12': ('Same runs as C01 on the live object state the summary is built from (count, height tag of the stored temperatures, search-log '
-            'rows) + the real get_summary_object on a light design object with symbolic values.', SEARCH_NOTE, '3/C12', None),
+            'rows) + the real get_summary_object and get_summary_text (value handed to the row formatter under each label; native replay parses the text) on a light design object with symbolic values.', SEARCH_NOTE, '3/C12', None),
     'C13': ('Self-composition: two histories ending in the same configuration run in one symbolic execution and z3 proves their results equal '
             'with the numeric kernels uninterpreted: all prefixes of up to two earlier operations {simulate HYBRID, simulate HOURLY, size} at '
             'other symbolic heights on one GHE object; the interpolation cache after an earlier query at any height; the search + sizing '
-            'repeated, after an unrelated search, and from another nominal borehole height; 24 (200) setter orders; mutable defaults; the '
+            'repeated, after an unrelated search, and from another nominal borehole height; 24 (200) setter orders; mutable defaults (calls with and without a no-go zone interleaved through both default lists); the '
             'equivalent-tube conversion applied twice; the long-time g-function computation (real calc_g_func_for_multiple_lengths / '
             'calculate_g_function over a contract stub of pygfunction) after one or two earlier computations with other media, soil, flow or '
             'geometry.',
@@ -104,7 +104,7 @@ CLAIMED = {
             'contract stub). sqrt with defining equation, ln uninterpreted with product rule, brentq as exact root.', '3/C15', None),
     'C16': ('For each concrete polygon (12 hand-made incl. the demo outline + 48 seeded lattice polygons quick; all 3-4 vertex lattice polygons '
             'thorough) the classification is proved for every real test point and tolerance against an independent crossing-number oracle '
-            'with the opposite half-open convention; polygons also given as closed rings (first vertex repeated) from different start vertices.',
+            'with the opposite half-open convention; polygons also given as closed rings (first vertex repeated) from different start vertices, and in a list object that held another polygon during an earlier check.',
             'sqrt abstracted (fresh non-negative real per term + per-edge detour lemma, slack 1e-12); polygon vertices concrete', '3/C16', None),
     'C17': ('For each geometry method (incl. RowWise with/without perimeter ratio) x pipe arrangement x option set, with every numeric field '
             'symbolic in its schema range: the written value tree satisfies every section schema and the load->write round trip reproduces '
@@ -115,7 +115,7 @@ CLAIMED = {
     'C18': ('The real click command, through click\'s own main(), for 7 option combinations x symbolic validation error count x conversion '
             'outcome: exit status zero exactly when outputs were written / valid under --validate-only / converted. validate_input_file on demo '
             'instances with one field symbolic / missing / wrong-typed / re-spelled: verdict 0 iff every section schema holds, error count = '
-            'number of failing sections. Counterexamples replay as real subprocesses / real jsonschema.',
+            'number of failing sections; every numeric key of the geometric-constraint, pipe, design and borehole sections symbolic for each of the six design methods and three pipe families. Counterexamples replay as real subprocesses / real jsonschema.',
             'enum strings are enumerated spellings; the design run inside the worker is stubbed', '3/C18', None),
     'C19': ('Solver-decided for every hour index 0..8759 (month/day/hour labels against an independent z3 calendar) and '
             'for all real elapsed times up to 30 years (monotone, two-sided Lipschitz, exact value, integer month ends); '
